@@ -90,6 +90,7 @@ func (e *Exec) finishPath(st *State, fr *Frame, res Value, in *ssa.Return) {
 		env.vars[names[0]] = res
 	}
 	seen := map[string]int{}
+	site := strings.TrimPrefix(e.ordinalName(in, "return"), "safe:")
 	for _, en := range e.contract.Ensures {
 		g := env.evalBool(en.E)
 		lbl := strings.Join(en.Labels, ",")
@@ -100,11 +101,14 @@ func (e *Exec) finishPath(st *State, fr *Frame, res Value, in *ssa.Return) {
 		} else if seen[lbl] > 1 {
 			name = fmt.Sprintf("ensures[%s]#%d", lbl, seen[lbl])
 		}
+		n0 := len(e.obls)
 		e.emit(st, name, "ensures", en.Labels, g, fmt.Sprintf("%s:%d", en.File, en.Line))
+		for _, o := range e.obls[n0:] {
+			o.Site = site
+		}
 	}
 	e.checkFrame(st, fr, env)
-	ord := e.ordinalName(in, "return")
-	e.emitCover(st, "cover:"+strings.TrimPrefix(ord, "safe:"), e.where(in))
+	e.emitCover(st, "cover:"+site, e.where(in))
 }
 
 // checkFrame emits obligations that nothing outside `assigns` changed.
